@@ -71,6 +71,16 @@ CLAIMS = {
             "kinds), filters, get_spec for every well-formed tree; the extracted cursor machine is run on the decoded committed files and "
             "must agree call-for-call with the library (tens of thousands of calls per run); legacy machine refuted.",
             "binary search is Rust's slice::binary_search_by transliterated by hand", "Coq theorems + exact model-vs-library correspondence", "6/C08, App. H"),
+    "C10": ("proof",
+            "Coq (FreelistFacts, PLFacts, PLProps): the allocator returns the first run of n consecutive free ids and fails only when no "
+            "run exists (so the file grows only then); a writer releases pending[u] iff u is older than every registered reader; with no "
+            "reader everything is released; pinned pages are retained; reopen keeps free + pending; plateau bound np <= max(np0, 2+2M+K) "
+            "for any number of commits under the stated per-commit hypothesis (proved for the contract level; multi-page fragmentation "
+            "has no closed bound: there the statement is alloc_complete); the free-list model is replayed event-exact against the library; "
+            "long runs must plateau.",
+            "plateau hypothesis grows_only_when_empty follows from alloc_complete only for single-page allocations; fragmentation of "
+            "multi-page runs is measured (series in the evidence), not bounded by a theorem",
+            "Coq theorems on the transliterated allocator + event-exact replay + long-run high-water series", "6/C10"),
     "C11": ("proof",
             "Coq (CrashFacts/CrashCurrent): for the I/O order and the free-list publication rule the translator reads from the current "
             "source, whichever call of a commit fails (applied, lost or torn), the disk holds exactly the pre or the post state with all "
@@ -85,6 +95,15 @@ CLAIMS = {
             "is hashed (checked against the GENERATED hash_fields); sweep: every offset x 4 values on both slots after 0..n commits + "
             "zeroing + random overwrites, library vs model.",
             "multi-byte damage is covered under the premise 'checksum mismatch' (evaluated), not unconditionally", "Coq theorem over generated layout + exhaustive byte sweep", "6/C12"),
+    "C13": ("proof",
+            "Coq (ProcFacts): in the process-level transition system of open (any number of processes, any schedule) at most one "
+            "process is between flock and close, and for the protocol the source implements (GENERATED flag lock_before_init) no opener "
+            "fails, whoever is inside sees an initialised file with every commit made so far, and the lock holder can always move; the "
+            "pinned protocol is refuted (panic on a half-created file, AlreadyExists for the losing creator); real processes are forced "
+            "into orderings at system-call boundaries with strace delay injection and the system-call word of every open is checked "
+            "against the automaton.",
+            "flock(2) semantics assumed; a crash between fallocate and the first write of a new file is outside the model",
+            "Coq invariant proof over an executable LTS + forced multi-process orderings", "6/C13, App. G"),
     "C16": ("translation_validation",
             "The same histories are replayed under the configuration grid (page size x initial pages x strict x populate) and every call "
             "and every committed file's decoded contents must equal the single reference run, so configurations are pairwise equal; strict "
